@@ -54,6 +54,10 @@ type run struct {
 	netDelay     time.Duration
 	clientDelay  map[string]time.Duration
 	cat          []*catOp
+	backups      map[int]*backupRec
+	tmpDirs      []string
+	leaseTasks   map[string]*leaseTask
+	leaseHist    []*leaseTask
 	blocked      map[string]bool
 	start        time.Time
 	leaderTables map[string]uint64 // name -> current leader shard id, as last observed
@@ -61,6 +65,10 @@ type run struct {
 }
 
 func (r *run) fail(prop, oracle, sig, f string, a ...any) {
+	if r.cfg.Prop == "C07" && prop == "C05" {
+		// in C07 runs the follower-vs-leader oracle decides the snapshot-recovery half of C07
+		prop = "C07"
+	}
 	r.out.Fail(prop, oracle, sig, r.step, f, a...)
 }
 func (r *run) failed() bool { return r.out.Violation != nil }
@@ -379,6 +387,14 @@ func (r *run) execStep(st *Step) {
 		r.execRaw(st)
 	case "ccreate", "cdelete", "clist":
 		r.execCat(st)
+	case "backup":
+		r.execBackup(st)
+	case "restore":
+		r.execRestore(st)
+	case "corrupt":
+		r.execCorrupt(st)
+	case "lease", "leasereturn", "release":
+		r.execLease(st)
 	case "create":
 		n := r.node(false, st.N)
 		if n == nil || !n.up {
